@@ -12,6 +12,16 @@ CLAIMED = {
    text="Seeded exploration of interleavings of 2-6 in-flight requests on seeded router shapes; every request must equal the same request served alone on a fresh identical router, and the same runs are repeated in a -race build where hand-offs between simulated requests are invisible to the detector, so only rux's own synchronisation orders them. Sampling, not enumeration.",
    note="Interleavings at yield sites only (harness handler boundaries, writer calls, verif-tagged sites in rux). Race detector blind spots (library-internal pools adding edges, bounded TSan history) can hide a race, never invent one. Trusted: the harness, Go's race detector.",
    ref="DESIGN.md §4.1"),
+ "C08": dict(
+   technique="deterministic simulation with writer fault injection: seeded handler operation programs against a fault-injecting simulated ResponseWriter; trace-driven state-machine model of the lazy header commit",
+   text="Seeded programs of up to 12 status/header/write/flush/helper operations spread over the handlers of a chain, against an underlying writer with a seeded plan of short writes and errors, alone and inside concurrent worlds; the underlying call log must equal what a three-state commit model produces from the operations recorded in the request's own trace. Sampling, not enumeration.",
+   note="The simulated writer commits like net/http's (a Write/Flush before WriteHeader is logged as an implicit 200). StatusCode() after the commit is deliberately not asserted (a suite test pins the opposite). Requests answered by rux's built-in 404/405 handlers are judged structurally only.",
+   ref="DESIGN.md §4.5"),
+ "C09": dict(
+   technique="deterministic simulation with crash injection: seeded handler panics at every script position, in sequential histories and concurrent worlds with immediate context reuse; call-log model + fresh-router twin for the requests that follow",
+   text="Seeded crash points (before/after Next in any middleware, main handler, custom fallback handlers, OnError hook; string/error/runtime/ErrAbortHandler values), hook present or absent and five hook behaviours; oracle: containment, hook ran once with the value, nothing later ran, single commit with the hook's status/body (commit model continued through the hook), unchanged propagation without hook; every request in flight at or started after a panic must equal the same request on a fresh router. Sampling, not enumeration.",
+   note="handlers.PanicsHandler (in-chain recovery) is not part of the statement and not exercised. What OnError does after a recovered panic is not asserted.",
+   ref="DESIGN.md §4.6"),
 }
 
 NA = {
@@ -27,7 +37,7 @@ NA = {
  "C19": "pure encoders over values and headers.",
  "C20": "pure functions of headers, method and wrapper list.",
 }
-PENDING = {k: "check not yet built at this commit (claimed in DESIGN.md §4; under construction)" for k in ["C04","C05","C07","C08","C09","C10","C14","C16"]}
+PENDING = {k: "check not yet built at this commit (claimed in DESIGN.md §4; under construction)" for k in ["C04","C05","C07","C10","C14","C16"]}
 
 def main():
     checks = []
